@@ -1,5 +1,6 @@
 import OrsoVerif.Model.PyVal
 import OrsoVerif.Model.FrameProg
+import OrsoVerif.Model.FrameCell
 /-! Driver glue for C03: decode a program of DataFrame operators, evaluate it with the list
 specification (`specEval`) and with the state machine of the implementation (`implEval`), encode
 both register files.  All semantics live in `Model/FrameProg.lean`. -/
@@ -74,6 +75,14 @@ def decodeOp : PyVal → Option (Op PyVal)
   | .list [.str "zip", .int s, .int t] => do pure (.zip (← asNat s) (← asNat t))
   | _ => none
 
+/-- Cells inside operators (the value a `query` predicate compares with, an appended row) are keyed like the cells
+of the frame: the model's cell type is Python values up to `==` (`Model/FrameCell.lean`). -/
+def keyOp : Op PyVal → Op PyVal
+  | .un (.query (.eq j v)) s => .un (.query (.eq j (pyKey v))) s
+  | .un (.query (.ne j v)) s => .un (.query (.ne j (pyKey v))) s
+  | .append s r => .append s (pyKeyL r)
+  | op => op
+
 def encodeVal : Val PyVal → PyVal
   | .none => .none
   | .nat n => .int n
@@ -113,9 +122,9 @@ def handle (op : String) (args : List PyVal) : Option (List PyVal) :=
     let kind ← decodeKind kind
     let cols ← decodeCols' names aliases
     let rows ← rows.mapM fun r => match r with
-      | .list xs => some xs
+      | .list xs => some (pyKeyL xs)
       | _ => none
-    let ops ← ops.mapM decodeOp
+    let ops ← ops.mapM fun o => (decodeOp o).map keyOp
     let sch : Schema := ⟨kind, cols⟩
     let sp ← specEval [.frame sch rows] ops
     -- the machine stops (`none`) when a program uses a spent frame: reported as an empty register file
